@@ -293,6 +293,7 @@ fn execute(scn: &BScn, property: &str) -> RunOutcome {
     let mut pending: Option<Pending> = None;
     let mut user_changed_since_end = false;
     let mut unacted_frames = 0usize;
+    let mut key_stable_frames = 0usize;
     // Ended events since the last reset / re-target ("exactly one Ended per run")
     let mut ended_events_in_run = 0u32;
     // set_timeline without reset while Ended: the animator keeps reporting Ended for a timeline it
@@ -754,6 +755,23 @@ fn execute(scn: &BScn, property: &str) -> RunOutcome {
                 if restarted {
                     let clause = if user_set_key && !user_changed_key { "same-key-restarted" } else { "restarted-without-key-change" };
                     fail!("C19", clause, "frame {fi}: no key change was acted on (key {key_before}, same key re-assigned: {}), but the animator went {state_base:?}@{pos_base:?} -> {:?}@{:?} with delta {delta:?}", user_set_key && !user_changed_key, after.state, after.pos);
+                }
+            }
+            // the key that has been active for more than LATENCY frames is the one in effect:
+            // the animator plays exactly that key's timeline (or none if the key has none) -
+            // independently of what the selector's own bookkeeping claims to have acted on
+            if key_before == key_after && !user_set_key {
+                key_stable_frames += 1;
+            } else {
+                key_stable_frames = 0;
+            }
+            if key_stable_frames > LATENCY {
+                let expected = cfg.keys.get(key_after as usize).copied().flatten();
+                let playing = twin.as_ref().map(|t| t.tl_index);
+                if expected != playing {
+                    fail!("C19", "selector-key-not-in-effect", "frame {fi}: key {key_after} has been active for {key_stable_frames} frames; its timeline is {expected:?} but the animator is set up for timeline {playing:?} (state {:?})", after.state);
+                } else if expected.is_none() && (after.state != AnimationState::None || after.comp != before.comp) {
+                    fail!("C19", "key-without-timeline-animates", "frame {fi}: key {key_after} has no timeline and has been active for {key_stable_frames} frames, but the animator is {:?} / the component changed", after.state);
                 }
             }
             // liveness: a key change is acted on within LATENCY frames
